@@ -4,10 +4,10 @@ CONSTANTS
   Flags <- BothFlags
   MaxMsgs = 2
   MaxUid = 2
-  MaxQueue = 3
+  MaxQueue = 2
   Kinds <- KExpunge
-  SeqSets <- Sets3
-  UidSets <- Sets3
+  SeqSets <- Sets2
+  UidSets <- Sets2
   UidForms <- SeqOnly
   AppendFlags <- NoFlagsOnly
   AppendBoxes <- OnlyA
